@@ -1,0 +1,89 @@
+//! Read-only observation hooks for the external verification harness.
+//!
+//! Compiled only with feature `verif-hooks`. Nothing here changes behaviour:
+//! all types are plain copies of / borrows into state the CLI already keeps.
+//! Byte slices are handed out raw (never as `&str`) so that the harness
+//! validates UTF-8 itself.
+
+use crate::input::ControlInput;
+
+/// Key the decoder produced for the last byte given to `process_byte`
+#[derive(Clone, Copy, Debug, Eq, PartialEq)]
+pub enum VerifKey {
+    Backspace,
+    Down,
+    Enter,
+    Back,
+    Forward,
+    Tab,
+    Up,
+}
+
+/// What the last byte given to `process_byte` was decoded into
+#[derive(Clone, Copy, Debug, Eq, PartialEq)]
+pub enum VerifInput {
+    /// Byte did not complete any input event
+    None,
+    /// Text input: raw bytes and their count
+    Char([u8; 4], u8),
+    Control(VerifKey),
+}
+
+impl VerifInput {
+    pub(crate) fn from_text(text: &str) -> Self {
+        let bytes = text.as_bytes();
+        let mut buf = [0; 4];
+        let len = bytes.len().min(4);
+        buf[..len].copy_from_slice(&bytes[..len]);
+        // length is reported as is, so harness can see texts longer than one char
+        VerifInput::Char(buf, bytes.len().min(255) as u8)
+    }
+
+    pub(crate) fn from_control(control: ControlInput) -> Self {
+        VerifInput::Control(match control {
+            ControlInput::Backspace => VerifKey::Backspace,
+            ControlInput::Down => VerifKey::Down,
+            ControlInput::Enter => VerifKey::Enter,
+            ControlInput::Back => VerifKey::Back,
+            ControlInput::Forward => VerifKey::Forward,
+            ControlInput::Tab => VerifKey::Tab,
+            ControlInput::Up => VerifKey::Up,
+        })
+    }
+}
+
+#[derive(Clone, Copy, Debug)]
+pub struct VerifEditor<'a> {
+    /// Whole command buffer (not only its valid part)
+    pub buffer: &'a [u8],
+    pub valid: usize,
+    pub cursor: usize,
+}
+
+#[derive(Clone, Copy, Debug)]
+pub struct VerifHistory<'a> {
+    /// Whole history buffer (not only its used part)
+    pub buffer: &'a [u8],
+    pub used: usize,
+    pub cursor: Option<usize>,
+}
+
+#[derive(Clone, Copy, Debug)]
+pub struct VerifDecoder {
+    pub csi_started: bool,
+    pub last_byte: u8,
+    pub utf8_buffer: [u8; 4],
+    pub utf8_expected: u8,
+    pub utf8_partial: u8,
+}
+
+#[derive(Clone, Copy, Debug)]
+pub struct VerifState<'a> {
+    /// `None` if editor is not in place between calls
+    pub editor: Option<VerifEditor<'a>>,
+    /// `None` if built without `history` feature
+    pub history: Option<VerifHistory<'a>>,
+    /// `None` if decoder is not in place between calls
+    pub decoder: Option<VerifDecoder>,
+    pub prompt: &'static str,
+}
